@@ -243,7 +243,7 @@ class Inst:
 class Scen:
     __slots__ = ("dfn", "parent", "running", "elapsed", "limit", "block", "inst", "monitors", "t0",
                  "children", "term_when", "term_sim_when", "records", "finals", "initials",
-                 "is_top", "dyn")
+                 "is_top", "dyn", "by_mon")
 
     def __init__(self, dfn, parent):
         self.dfn = dfn
@@ -263,6 +263,7 @@ class Scen:
         self.initials = []
         self.is_top = parent is None
         self.dyn = parent is not None  # instantiated while the simulation runs
+        self.by_mon = False  # stopped by a `terminate` of one of its monitors (classes only)
 
 
 class Agent:
@@ -858,10 +859,14 @@ class Machine:
             if any(g is not f and g[0] == "dosc" and g[2] for g in self.dosc_frames(S)):
                 self.features.add("do-while-another-do-suspended")
         else:
+            gone = any(x.by_mon and not x.running for x in f[2])  # (classification only)
             if one:
                 S.children = [x for x in S.children if x.running]
             else:
                 f[2] = [x for x in f[2] if x.running]
+            if gone:
+                self.features.add("mon-terminate-sub:sibling-continues" if f[2]
+                                  else "mon-terminate-sub:parent-resumes")
             if spec is not None and self.spec_holds(spec):
                 self.features.add("do-limit-hit")
                 for x in f[2]:
@@ -1052,6 +1057,8 @@ class Machine:
             p = r[1]
             if p == ENDSIM:
                 self.features.add("mon-terminate-sim")
+                if not m.scen.is_top:
+                    self.features.add("mon-terminate-sim-sub")
                 types = {"terminatedByMonitor"} if types is None else types | {"terminatedByMonitor"}
                 self.top_done = True
             elif p == ENDSCEN:
@@ -1065,6 +1072,13 @@ class Machine:
                     # they do, as in the implementation)
                     raise Unjudged("monitor terminate with sibling monitors")
                 stopped.append(S)
+                if not S.is_top:
+                    S.by_mon = True
+                    self.features.add("mon-terminate-sub")
+                    if not S.parent.is_top:
+                        self.features.add("mon-terminate-sub:depth2")
+                    if any(x is not S for x in S.parent.children):
+                        self.features.add("mon-terminate-sub:under-parallel-do")
                 if S.is_top:
                     t2 = {"terminatedByMonitor", "scenarioComplete"}
                     types = t2 if types is None else types | t2
@@ -1255,6 +1269,31 @@ def selftest():
     st, a, r = acts(p, {"i": [1, 1, 0, 1, 1]}, 4)
     if st != "guard" or r["classes"] != {"InvariantViolation"} or r["time"] != 2:
         raise core.HarnessError(f"c12_model selftest 5: {st} {a}")
+    # dynamic_scenarios.rst step 3: `terminate` in a monitor stops the scenario which instantiated
+    # it; only `terminate simulation` sets the termination flag.  Main: do Sub; wait; wait.  Sub's
+    # monitor waits twice, then terminates at step 2: step 2 runs completely, Main resumes at
+    # step 3, waits during steps 3 and 4 and finishes at step 5 (5 action entries).
+    def scope_prog(what):
+        return {"behaviors": [{"name": "B0", "pre": [], "inv": [],
+                               "body": [["while", None, [["take", 1]]]]}],
+                "monitors": [{"name": "M0", "body": [["wait"], ["wait"], [what]]}],
+                "scenarios": [{"name": "Main", "pre": [], "inv": [],
+                               "setup": [["obj", "a0", "B0"]],
+                               "compose": [["do", ["S1"]], ["log", "resumed"], ["wait"], ["wait"]]},
+                              {"name": "S1", "pre": [], "inv": [], "setup": [["monitor", "M0"]],
+                               "compose": [["while", None, [["log", "sub"], ["wait"]]]]}],
+                "toplevel": False}
+
+    st, a, r = acts(scope_prog("terminate"), {}, 10)
+    logs = [(e[1], e[2]) for e in r["log"] if e[0] == "log"]
+    if (r["time"], r["types"], len(a)) != (5, {"scenarioComplete"}, 5) or \
+            logs != [(0, "sub"), (1, "sub"), (2, "sub"), (3, "resumed")] or \
+            "mon-terminate-sub:parent-resumes" not in r["features"]:
+        raise core.HarnessError(f"c12_model selftest 7: {r['time']} {r['types']} {logs}")
+    # ... whereas `terminate simulation` there ends the simulation in step 4 of time step 2
+    st, a, r = acts(scope_prog("terminate_sim"), {}, 10)
+    if (r["time"], r["types"], len(a)) != (2, {"terminatedByMonitor"}, 2):
+        raise core.HarnessError(f"c12_model selftest 8: {r['time']} {r['types']}")
     # terminate after 2 steps at the top level: scenarioComplete at time 2, 2 action entries
     p = beh_prog([["while", None, [["take", 1]]]])
     p["scenarios"][0]["setup"].append(["term_after", 2, "steps"])
